@@ -70,8 +70,20 @@ func c18Bytes(t *rapid.T, label string, bounds []int, max int) []byte {
 // c18RelPath draws a path that validateRelPath accepts (non-empty, <= 1024 bytes, no "..",
 // not absolute), of boundary-biased length.
 func c18RelPath(t *rapid.T) string {
-	n := rapid.OneOf(rapid.SampledFrom([]int{1, 2, 1023, 1024}), rapid.IntRange(1, 1024), rapid.IntRange(1, 40)).Draw(t, "path_len")
+	// byte lengths up to the limit and beyond it: a path the encoder refuses is fine, one it
+	// emits must decode; "beyond" matters when the two sides measure length differently
+	// (bytes vs characters), so some paths consist of multi-byte characters only
+	n := rapid.OneOf(rapid.SampledFrom([]int{1, 2, 1023, 1024}), rapid.IntRange(1, 1024), rapid.IntRange(1, 40),
+		rapid.SampledFrom([]int{1025, 1026, 1500, 2048, 3072, 4096})).Draw(t, "path_len")
 	alphabet := []string{"a", "b", "Z", "0", "_", "-", " ", ".", "/", "é", "漢", "\\", "~", "\x01", "\xff"}
+	switch rapid.IntRange(0, 5).Draw(t, "path_alphabet") {
+	case 0:
+		alphabet = []string{"é", "ü", "ß"}
+	case 1:
+		alphabet = []string{"漢", "字", "é", "/"}
+	case 2:
+		alphabet = []string{"😀", "𝄞"}
+	}
 	var sb strings.Builder
 	seed := verifkit.XorShift(rapid.Uint64().Draw(t, "path_seed"))
 	for sb.Len() < n {
